@@ -54,15 +54,32 @@ def main():
             order.append(l)
     for k, v in dump["map"]:
         for s in (k, v):
-            if not all(32 <= ord(c) < 127 and c not in '"\\' for c in s):
+            if not all(32 <= ord(c) < 127 and c not in '"\\\'' for c in s):
                 fail(f"non-ASCII or quote in format string {s!r}")
-    rows = ",\n".join(f'  ("{k}".toList, "{v}".toList)' for k, v in dump["map"])
-    lits_lean = ", ".join(f'"{l}".toList' for l in order)
+    if "readers" not in dump:
+        fail("dump has no reader map")
+    for k, types in dump["readers"]:
+        for t in [k] + types:
+            if not all(32 <= ord(c) < 127 and c not in '"\\\'' for c in t):
+                fail(f"non-ASCII or quote in reader-map string {t!r}")
+        if not types:
+            fail(f"handler stored under {k!r} supports no type")
+    # identity of a handler instance = the supported-type list it reports (one static list per
+    # handler type)
+    # explicit character lists: the kernel re-proves the table obligations on every run, and
+    # evaluating `"…".toList` on string literals inside `decide +kernel` is orders of magnitude slower
+    def chars(x):
+        return "[" + ", ".join("'" + c + "'" for c in x) + "]"
+    reader_rows = ",\n".join(f'  ({chars(k)}, {chars(",".join(types))})' for k, types in dump["readers"])
+    rows = ",\n".join(f'  ({chars(k)}, {chars(v)})' for k, v in dump["map"])
+    lits_lean = ", ".join(chars(l) for l in order)
     text = f"""import C2paModel.Model.C11
 /-
 GENERATED on every check run by translators/c11_container_table.py — do not edit.
 `table` is CONTAINER_MAP dumped from the running code; `scannedLiterals` are the literals
-`container_from_stream` returns in sdk/src/jumbf_io.rs; `pdf` is the crate feature flag.
+`container_from_stream` returns in sdk/src/jumbf_io.rs; `pdf` is the crate feature flag;
+`readers` is CAI_READERS dumped from the running code: format string ↦ identity of the handler
+instance stored under it (the supported-type list that instance reports).
 -/
 namespace C2pa.C11.Gen
 
@@ -70,6 +87,10 @@ def pdf : Bool := {"true" if dump["pdf"] else "false"}
 
 def table : C2pa.C11.Table := [
 {rows}
+]
+
+def readers : C2pa.C11.Table := [
+{reader_rows}
 ]
 
 def scannedLiterals : List C2pa.C11.Fmt := [{lits_lean}]
@@ -80,7 +101,7 @@ end C2pa.C11.Gen
     if old != text:
         os.makedirs(os.path.dirname(OUT), exist_ok=True)
         open(OUT, "w").write(text)
-    info = {"table": "C11Table", "rows": len(dump["map"]), "literals": order, "pdf": dump["pdf"],
+    info = {"table": "C11Table", "rows": len(dump["map"]), "reader_rows": len(dump["readers"]), "literals": order, "pdf": dump["pdf"],
             "sha256_body": hashlib.sha256(body.encode()).hexdigest()[:16], "changed": old != text}
     print("TABLE " + json.dumps(info))
 
